@@ -250,7 +250,7 @@ func runC30(c *Ctx) {
 			_, a := callArgs(cs.Common())
 			args = append(args, render(a[0]))
 		}
-		okScope := len(args) == 2 && strings.HasPrefix(args[0], "$r.headerToBytes(") && args[1] == "$r.payload[:$r.lengthOfPayload]"
+		okScope := len(args) == 2 && (args[0] == "$r.headerToBytes($0)" || args[0] == "$r.headerToBytes(false)" || args[0] == "$r.headerToBytes(true)") && args[1] == "$r.payload[:$r.lengthOfPayload]"
 		c.check(okScope, "C30.hash-scope", "checksum covers header bytes and payload[:length]", hf.Pos(), strings.Join(args, " ; "), "checksum covers "+strings.Join(args, " ; "))
 	}
 	// ---- wire-order
@@ -363,5 +363,107 @@ func runC30(c *Ctx) {
 			}
 			c.check(okArg, "C30.read-loop", "_read continues where the previous chunk ended", cs.Pos(), "Read(b[rn:])", "reads into "+render(a[0]))
 		}
+	}
+	runC30Stream(c)
+}
+
+// runC30Stream: the stream wrappers and the extension descriptor.
+func runC30Stream(c *Ctx) {
+	const pkg = "network"
+	// ---- extension descriptor: hint and length tile the 16 bits, packer and accessors agree
+	maxLen, ok1 := c.constVal(pkg, "packetExtendMaxLen")
+	maxHint, ok2 := c.constVal(pkg, "packetExtendMaxHint")
+	var shifts []int64
+	for _, fn := range []*ssa.Function{c.mustFn(pkg, "", "newPacketExtendInfo"), c.mustFn(pkg, "packetExtendInfo", "hint")} {
+		if fn == nil {
+			continue
+		}
+		for _, b := range fn.Blocks {
+			for _, in := range b.Instrs {
+				if bo, ok := in.(*ssa.BinOp); ok && (bo.Op == token.SHL || bo.Op == token.SHR) {
+					if k, ok := constInt(bo.Y); ok {
+						shifts = append(shifts, k)
+					}
+				}
+			}
+		}
+	}
+	okExt := ok1 && ok2 && len(shifts) == 2 && shifts[0] == shifts[1] && maxLen == (1<<uint(shifts[0]))-1 && maxHint == (1<<uint(16-shifts[0]))-1
+	c.check(okExt, "C30.ext-descriptor", "extension descriptor: length mask, hint mask and shift tile 16 bits", token.NoPos, fmt.Sprintf("shift %v, len mask %#x, hint mask %#x", shifts, maxLen, maxHint), fmt.Sprintf("shift %v, length mask %#x, hint mask %#x do not tile the 16-bit descriptor: extension lengths with the lost bits are written or read short", shifts, maxLen, maxHint))
+	for _, nm := range []string{"len", "hint"} {
+		if f := c.mustFn(pkg, "packetExtendInfo", nm); f != nil {
+			n := 0
+			for _, b := range f.Blocks {
+				for _, in := range b.Instrs {
+					if bo, ok := in.(*ssa.BinOp); ok && bo.Op == token.AND {
+						k, _ := constInt(bo.Y)
+						want := maxLen
+						if nm == "hint" {
+							want = maxHint
+						}
+						n++
+						c.check(k == want, "C30.ext-descriptor", "packetExtendInfo."+nm+" masks with its field mask", bo.Pos(), fmt.Sprintf("%#x", k), fmt.Sprintf("masks with %#x", k))
+					}
+				}
+			}
+			if n != 1 {
+				c.undecided("C30.ext-descriptor", "packetExtendInfo."+nm, f.Pos(), fmt.Sprintf("%d masks", n))
+			}
+		}
+	}
+	// ---- every packet read is its own object
+	if f := c.mustFn(pkg, "PacketReader", "ReadPacket"); f != nil {
+		n := 0
+		for _, e := range successAlts(f) {
+			n++
+			_, fresh := unwrap(e.Results[0]).(*ssa.Alloc)
+			c.check(fresh, "C30.fresh-packet", "ReadPacket returns a packet of its own", e.pos(), "new Packet per call", "returns "+render(e.Results[0])+": packets read earlier are overwritten by later ones")
+		}
+		if n == 0 {
+			c.undecided("C30.fresh-packet", "ReadPacket", f.Pos(), "no successful exit")
+		}
+	}
+	// ---- a written packet is handed to the stream before WritePacket reports success
+	if f := c.mustFn(pkg, "PacketWriter", "WritePacket"); f != nil {
+		n := 0
+		for _, e := range exitAlts(f) {
+			r := render(e.Results[0])
+			if strings.HasSuffix(r, ".Flush()") {
+				n++
+				continue
+			}
+			if !isNilConst(e.Results[0]) {
+				continue
+			}
+			n++
+			c.requireGuard("C30.flush", "WritePacket succeeds without flushing", e.pos(), e.Guards, wGE("nothing is buffered", 0, t(-1, `\.Buffered\(\)$`)))
+		}
+		if n < 2 {
+			c.undecided("C30.flush", "WritePacket exits", f.Pos(), fmt.Sprintf("%d", n))
+		}
+	}
+	// ---- Reset switches the buffered wrapper to the new stream as well
+	for _, tn := range [][2]string{{"PacketReader", "rd"}, {"PacketWriter", "wr"}} {
+		f := c.mustFn(pkg, tn[0], "Reset")
+		if f == nil {
+			continue
+		}
+		sts := fieldStores([]*ssa.Function{f}, tn[0], tn[1])
+		rs := c.calls(f, func(cc *ssa.CallCommon) bool {
+			return methodName(cc) == "Reset" && strings.HasPrefix(calleeName(cc), "(*bufio.")
+		})
+		okR := len(sts) == 1 && len(rs) == 1
+		if okR {
+			_, a := callArgs(rs[0].Common())
+			arg := render(a[len(a)-1])
+			okR = (arg == "$0" || arg == "$r."+tn[1]) && render(sts[0].Store.Val) == "$0"
+			if arg == "$r."+tn[1] {
+				okR = okR && dominatesInstr(sts[0].Store, rs[0].Instr)
+			}
+			if _, by := pathAvoiding(f, f.Blocks[0].Instrs[0], isReturn, func(in ssa.Instruction) bool { return in == ssa.Instruction(rs[0].Instr) }); by {
+				okR = false
+			}
+		}
+		c.check(okR, "C30.reset", tn[0]+".Reset re-targets the buffered wrapper", f.Pos(), "bufio Reset(new stream)", "after Reset the buffered wrapper still reads/writes the previous stream (and keeps its buffered bytes)")
 	}
 }
